@@ -278,3 +278,213 @@ def formally_equal(a, b):
     r = z3.simplify(an * bd - bn * ad, som=True)
     n = _num(r)
     return n is not None and n == 0
+
+
+# -- sparse polynomials over Q: {((var, exp), ...): Fraction} ----------------
+
+def _padd(a, b, sign=1):
+    r = dict(a)
+    for m, c in b.items():
+        v = r.get(m, 0) + sign * c
+        if v == 0:
+            r.pop(m, None)
+        else:
+            r[m] = v
+    return r
+
+
+def _mmul(m1, m2):
+    d = dict(m1)
+    for v, e in m2:
+        d[v] = d.get(v, 0) + e
+    return tuple(sorted(d.items()))
+
+
+def _pmul(a, b):
+    r = {}
+    if len(a) > len(b):
+        a, b = b, a
+    for m1, c1 in a.items():
+        for m2, c2 in b.items():
+            m = _mmul(m1, m2)
+            v = r.get(m, 0) + c1 * c2
+            if v == 0:
+                r.pop(m, None)
+            else:
+                r[m] = v
+    return r
+
+
+def _ppow(a, n):
+    r = {(): Fraction(1)}
+    for _ in range(n):
+        r = _pmul(r, a)
+    return r
+
+
+def poly_dict(e, limit=400000):
+    """polynomial z3 term (no division) -> sparse dict; atoms other than
+    constants are rejected"""
+    memo = {}
+
+    def g(x):
+        k = x.get_id()
+        if k in memo:
+            return memo[k]
+        r = _g(x)
+        if len(r) > limit:
+            raise ValueError("polynomial too large")
+        memo[k] = r
+        return r
+
+    def _g(x):
+        n = _num(x)
+        if n is not None:
+            return {(): n} if n != 0 else {}
+        if z3.is_const(x):
+            return {((x.decl().name(), 1),): Fraction(1)}
+        kind = x.decl().kind()
+        ch = x.children()
+        if kind == z3.Z3_OP_ADD:
+            r = {}
+            for c in ch:
+                r = _padd(r, g(c))
+            return r
+        if kind == z3.Z3_OP_SUB:
+            r = g(ch[0])
+            for c in ch[1:]:
+                r = _padd(r, g(c), -1)
+            return r
+        if kind == z3.Z3_OP_UMINUS:
+            return _padd({}, g(ch[0]), -1)
+        if kind == z3.Z3_OP_MUL:
+            r = {(): Fraction(1)}
+            for c in ch:
+                r = _pmul(r, g(c))
+            return r
+        if kind == z3.Z3_OP_POWER:
+            n = _num(ch[1])
+            if n is not None and n.denominator == 1 and 0 <= n <= 16:
+                return _ppow(g(ch[0]), int(n))
+        raise ValueError("poly_dict: unsupported %s" % x.decl())
+
+    return g(e)
+
+
+def reduce_mod_roots(R, roots, budget_s=60):
+    """R: polynomial z3 term.  roots: list of (y, t), y a z3 Real constant
+    with y*y == t on the path (t rational, denominator non-zero on the
+    path).  Eliminates y^k (k >= 2) with D*y^2 = N and reports whether the
+    result is the zero polynomial (then R == 0 on the path).  The sparse
+    polynomial arithmetic used here is part of the trusted base."""
+    import time as _t
+    t0 = _t.time()
+    try:
+        P = poly_dict(R)
+    except ValueError:
+        return False
+    for y, t in reversed(list(roots)):
+        if _t.time() - t0 > budget_s:
+            return False
+        name = y.decl().name()
+        if not any(v == name for m in P for v, _ in m):
+            continue
+        tn, td = clear_div(t)
+        try:
+            N, D = poly_dict(tn), poly_dict(td)
+        except ValueError:
+            return False
+        # split by power of y
+        byk = {}
+        for m, c in P.items():
+            k = 0
+            rest = []
+            for v, e in m:
+                if v == name:
+                    k = e
+                else:
+                    rest.append((v, e))
+            byk.setdefault(k, {})[tuple(rest)] = c
+        K = max(k // 2 for k in byk)
+        if K == 0:
+            continue
+        Npow = {0: {(): Fraction(1)}}
+        Dpow = {0: {(): Fraction(1)}}
+        for i in range(1, K + 1):
+            Npow[i] = _pmul(Npow[i - 1], N)
+            Dpow[i] = _pmul(Dpow[i - 1], D)
+        newP = {}
+        for k, ck in byk.items():
+            term = _pmul(_pmul(ck, Npow[k // 2]), Dpow[K - k // 2])
+            if k % 2:
+                term = dict((_mmul(m, ((name, 1),)), c)
+                            for m, c in term.items())
+            newP = _padd(newP, term)
+            if len(newP) > 400000 or _t.time() - t0 > budget_s:
+                return False
+        P = newP
+        if not P:
+            return True
+    return not P
+
+
+def _old_reduce_mod_roots(R, roots):
+
+    """R: polynomial z3 term (no division).  roots: list of (y, t) with y a
+    z3 Real constant constrained by y*y == t on the path (t a rational
+    function whose denominator is non-zero on the path).  Tries to show
+    R == 0 modulo those relations by pseudo-division (sympy, untrusted);
+    every division step  lc^m * R == Q*g + rem  is re-checked by z3's
+    normaliser.  Returns True only if the final remainder is identically 0."""
+    import sympy as sp
+    syms = {}
+    try:
+        Rs = to_sympy(z3.simplify(R), syms)
+    except ValueError:
+        return False
+    zvars = {}
+
+    def collect(e):
+        if z3.is_const(e) and _num(e) is None:
+            zvars[e.decl().name()] = e
+        for c in e.children():
+            collect(c)
+    collect(R)
+    cur_z = R
+    cur_s = sp.expand(Rs)
+    # later roots may be defined in terms of earlier ones: go backwards
+    for y, t in reversed(list(roots)):
+        name = y.decl().name()
+        if name not in syms:
+            continue
+        tn, td = clear_div(t)
+        collect(tn)
+        collect(td)
+        collect(y)
+        g_z = td * y * y - tn
+        try:
+            g_s = sp.expand(to_sympy(z3.simplify(g_z), syms))
+        except ValueError:
+            return False
+        ys = syms[name]
+        if sp.degree(cur_s, ys) < 2:
+            continue
+        q_s, r_s = sp.pdiv(cur_s, g_s, ys)
+        m = sp.degree(cur_s, ys) - 2 + 1
+        lc_s = sp.LC(g_s, ys)
+        try:
+            q_z = from_sympy(sp.expand(q_s), zvars)
+            r_z = from_sympy(sp.expand(r_s), zvars) if r_s != 0 \
+                else z3.RealVal(0)
+            lc_z = from_sympy(sp.expand(lc_s ** m), zvars)
+        except (ValueError, KeyError):
+            return False
+        chk = z3.simplify(lc_z * cur_z - q_z * g_z - r_z, som=True)
+        n = _num(chk)
+        if n is None or n != 0:
+            return False          # certificate rejected by z3
+        cur_z, cur_s = r_z, sp.expand(r_s)
+        if cur_s == 0:
+            return True
+    n = _num(z3.simplify(cur_z, som=True))
+    return n is not None and n == 0
